@@ -27,6 +27,7 @@ mod c08;
 mod c05b;
 mod c05c;
 mod c05;
+mod c09;
 mod c10;
 mod c12;
 mod c17;
@@ -36,6 +37,7 @@ mod working_memory;
 mod rete_agenda;
 mod modules;
 mod agenda_mgr;
+mod engine_agenda_actions;
 mod bc_memo;
 mod c11b;
 
@@ -78,6 +80,7 @@ fn main() {
     all.extend(c05b::witnesses());
     all.extend(c05c::witnesses());
     all.extend(c05::witnesses());
+    all.extend(c09::witnesses());
     all.extend(c10::witnesses());
     all.extend(c12::witnesses());
     all.extend(c17::witnesses());
@@ -87,6 +90,7 @@ fn main() {
     all.extend(rete_agenda::witnesses());
     all.extend(modules::witnesses());
     all.extend(agenda_mgr::witnesses());
+    all.extend(engine_agenda_actions::witnesses());
     all.extend(bc_memo::witnesses());
     all.extend(c11b::witnesses());
     let mut ran = false;
